@@ -2,6 +2,7 @@ package main
 
 import (
 	"fmt"
+	"strings"
 
 	"verifh/lib"
 )
@@ -126,6 +127,9 @@ func knownFindings(c in) []string {
 	if c.Fn == "gsub" && c.Repl != nil && c.Repl.Kind == "str" && replHasOtherEscape(unhex(c.Repl.Str)) {
 		kf = append(kf, "C14-5")
 	}
+	if c.Fn == "big" && c.Kind == 0 && c.N+3 > 1000000 {
+		kf = append(kf, "C14-11")
+	}
 	if c.Fn != "prog" && setRangeEndsWithPercent(p) {
 		kf = append(kf, "C14-10")
 	}
@@ -181,6 +185,24 @@ func corpus(w *lib.Writer, pl *pool) {
 		{Fn: "find", S: hx("a.b"), P: hx("."), Init: i64(1), Plain: true, Extra: 1, Src: "corpus"},    // plain flag with 5 arguments (fixed)
 		{Fn: "find", S: hx("a.b"), P: hx("."), Init: i64(1), Plain: true, Extra: 0, Src: "corpus"},
 		{Fn: "find", S: hx("a+b"), P: hx("+b"), Init: i64(-2), Plain: true, Extra: 3, Src: "corpus"},
+		// hunt round: gmatch must return one closure (harness protocol); subject given as a number;
+		// capture limit / parser recursion; recursion cap on big subjects (C14-11, open); extreme init
+		{Fn: "gsub", S: hx("123"), P: hx("x"), Repl: &replIn{Kind: "str", Str: hx("y")}, SNum: true, Src: "corpus"},
+		{Fn: "gsub", S: hx("123"), P: hx("2"), Repl: &replIn{Kind: "str", Str: hx("y")}, Limit: i64(0), SNum: true, Src: "corpus"},
+		{Fn: "gsub", S: hx("2009"), P: hx("%s+"), Repl: &replIn{Kind: "str", Str: ""}, SNum: true, Src: "corpus"},
+		{Fn: "gsub", S: hx("123"), P: hx("2"), Repl: &replIn{Kind: "str", Str: hx("y")}, SNum: true, Src: "corpus"},
+		{Fn: "find", S: hx("123"), P: hx("%d%d$"), SNum: true, Src: "corpus"},
+		{Fn: "gmatch", S: hx("1234"), P: hx("%d%d"), SNum: true, Src: "corpus"},
+		{Fn: "big", Kind: 1, N: 5000000, Src: "corpus"}, // was: fatal stack overflow in parsePattern (fixed)
+		{Fn: "big", Kind: 1, N: 33, Src: "corpus"},
+		{Fn: "big", Kind: 1, N: 3, Src: "corpus"},
+		{Fn: "big", Kind: 0, N: 999997, Src: "corpus"},  // largest subject "a*" still matches
+		{Fn: "big", Kind: 0, N: 999998, Src: "corpus"},  // C14-11 (open): pattern/input too complex
+		{Fn: "big", Kind: 0, N: 1100000, Src: "corpus"}, // C14-11
+		f("find", "abc", "a", i64(-9223372036854775808)), // -2^63 (fixed by e961103)
+		f("match", "abc", "a", i64(-9223372036854775808)),
+		f("find", "abc", "c", i64(9007199254740992)), // 2^53
+		f("match", "abc", "()", i64(-9007199254740992)),
 		g("abc", "(%w)", str("%2"), nil),     // seeded C14-8: %N with N = captures+1
 		g("abc", "(%w)(%w)", str("%3"), nil), //
 		g("abc", "()", str("%2"), nil),       //
@@ -642,6 +664,9 @@ func generate(w *lib.Writer, pl *pool, r *lib.Rand, tier string) {
 			runCase(w, pl, in{Fn: "find", S: hx(v.s), P: hx(v.p), Init: i64(int64(init)), Src: "anchored-init"})
 			runCase(w, pl, in{Fn: "match", S: hx(v.s), P: hx(v.p), Init: i64(int64(init)), Src: "anchored-init"})
 		}
+		for _, init := range []int64{-9223372036854775808, -9007199254740992, 9007199254740992} {
+			runCase(w, pl, in{Fn: []string{"find", "match"}[r.Intn(2)], S: hx(v.s), P: hx(v.p), Init: i64(init), Src: "anchored-init"})
+		}
 		for off := 0; off <= l; off++ {
 			if r.Chance(50) {
 				runCase(w, pl, in{Fn: "pmfind", S: hx(v.s), P: hx(v.p), Off: int64(off), Limit: i64([]int64{-1, 1, 2}[r.Intn(3)]), Src: "anchored-init"})
@@ -666,6 +691,27 @@ func generate(w *lib.Writer, pl *pool, r *lib.Rand, tier string) {
 			}
 			runCase(w, pl, c)
 		}
+	}
+	// (1f) capture limit: 30..34 captures (position, plain, nested) -- LUA_MAXCAPTURES is 32
+	for k := 30; k <= 34; k++ {
+		for _, mk := range []func(int) string{
+			func(k int) string { return strings.Repeat("()", k) },
+			func(k int) string { return strings.Repeat("(a?)", k) },
+			func(k int) string { return strings.Repeat("(", k) + "a" + strings.Repeat(")", k) },
+			func(k int) string { return strings.Repeat("(", k) + "b" }, // unfinished
+		} {
+			p := mk(k)
+			runCase(w, pl, in{Fn: "find", S: hx("a"), P: hx(p), Src: "cap-limit"})
+			runCase(w, pl, in{Fn: "gsub", S: hx("aa"), P: hx(p), Repl: &replIn{Kind: "str", Str: hx("<%1>")}, Src: "cap-limit"})
+		}
+	}
+	// (1g) numbers as subject (converted to their decimal string; the result is a string)
+	for n := 0; n < 24; n++ {
+		subj := fmt.Sprint(r.Range(0, 99999))
+		p := []string{"x", "%d", "0", "%s+", "", "(%d)(%d)", "9$", "^1"}[r.Intn(8)]
+		c := gsubCase(r, p, subj, "number-subject")
+		c.SNum = true
+		runCase(w, pl, c)
 	}
 	// (1e) plain find with and without further arguments after the flag
 	nplain := 40
